@@ -83,6 +83,9 @@ def cross_eps(X, Y, eps=1.):
     """
     from scipy.sparse import coo_matrix
     check_feature_matrices(X, Y)
+    # squares of (narrow or unsigned) integer coordinates must not wrap around
+    X = np.asarray(X, dtype=np.float64)
+    Y = np.asarray(Y, dtype=np.float64)
     try:
         eps = float(eps)
     except:
@@ -125,6 +128,9 @@ def cross_knn(X, Y, k=1):
     """
     from scipy.sparse import coo_matrix
     check_feature_matrices(X, Y)
+    # squares of (narrow or unsigned) integer coordinates must not wrap around
+    X = np.asarray(X, dtype=np.float64)
+    Y = np.asarray(Y, dtype=np.float64)
     try:
         k = int(k)
     except:
